@@ -15,6 +15,7 @@ package thrift
 //@   bitvector
 //@   ensures @decoding_gives_the_value_back zigzagToInt64(result) == l
 //@   ensures @small_magnitudes_get_small_codes (0 <= l && l < 64 ==> 0 <= result && result < 128) && (0 - 64 <= l && l < 0 ==> 0 <= result && result < 128)
+//@   ensures @the_maximal_placeholder_has_the_longest_code l == 9223372036854775807 ==> result + 2 == 0
 
 //@ func (*TCompactProtocol).zigzagToInt64
 //@   property C16
@@ -25,8 +26,25 @@ package thrift
 //@   property C16
 //@   bitvector
 //@   ensures @decoding_gives_the_value_back zigzagToInt32(result) == n
+//@   ensures @the_maximal_placeholder_has_the_longest_code n == 2147483647 ==> result + 2 == 0
 
 //@ func (*TCompactProtocol).zigzagToInt32
 //@   property C16
 //@   bitvector
 //@   ensures @encoding_gives_the_code_back int32ToZigzag(result) == n
+
+// Variable-length integers: what writeVarint64 / writeVarint32 hand to the
+// transport, read back through readVarint64 / readVarint32, is the value written,
+// for every value, with every encoded byte consumed.  Whole-path bit-vector
+// harness with the loops unrolled by operand width (10 = ceil(64/7), 5 =
+// ceil(32/7)) and unwinding assertions.  `longest -2`: the code -2 (all ones but
+// the last bit: the zigzag code of the maximal placeholder, see above) takes the
+// maximal number of bytes, which no other value exceeds.
+//@ roundtrip varint64 [C16]: encode (*TCompactProtocol).writeVarint64 decode (*TCompactProtocol).readVarint64 unroll 10 longest -2
+//@ roundtrip varint32 [C16]: encode (*TCompactProtocol).writeVarint32 decode (*TCompactProtocol).readVarint32 unroll 5 longest -2
+
+// The protocol's integer fields end to end (zigzag, then varint, and back), through
+// the exported methods and everything they call in this package.
+//@ roundtrip I64 [C16]: encode (*TCompactProtocol).WriteI64 decode (*TCompactProtocol).ReadI64 unroll 10 longest 9223372036854775807
+//@ roundtrip I32 [C16]: encode (*TCompactProtocol).WriteI32 decode (*TCompactProtocol).ReadI32 unroll 5 longest 2147483647
+//@ roundtrip I16 [C16]: encode (*TCompactProtocol).WriteI16 decode (*TCompactProtocol).ReadI16 unroll 3 longest 32767
